@@ -128,9 +128,8 @@ Theorem C16_volume_preserving_dim1_frechet : forall mi (g g' : R -> R),
   exists Df, filterdiff (sleap mi g eps L) (locally x) Df /\ P_leapfrog_ndim.det2 Df = 1.
 Proof. exact P_leapfrog_ndim.gleap_dim1_volume. Qed.
 Print Assumptions C16_volume_preserving_dim1_frechet.
-(* what is still not formalised: that the abstract determinant functional on Un n x Un n is the determinant of
-   the matrix of partial derivatives (mathcomp's \det over the reals needs a ring structure on R that is not
-   installed here); on the implementation the determinant is measured by central differences on every run. *)
+(* the abstract functional is instantiated with the genuine determinant of the matrix of partial derivatives at the
+   end of this file: C16_jacobian_determinant_one. *)
 
 (* The positions written into the parameters form a trajectory that ends at the returned position. *)
 Theorem C16_trace_ends_at_result : forall eps Minv grad L x,
@@ -261,3 +260,50 @@ Theorem C16_shear_matrices_act_as_shears : forall (K : comRingType) (n : nat) (l
   col_mx (foldl (fun x s => shear_act s x) (q, p) l).1 (foldl (fun x s => shear_act s x) (q, p) l).2.
 Proof. exact shearsJ_acts. Qed.
 Print Assumptions C16_shear_matrices_act_as_shears.
+
+(* ------------------------------------------------------------------------------------------------------------
+   Volume preservation, COMPLETE: any dimension n+1, any Frechet-differentiable gradient, diagonal or dense inverse
+   mass matrix, any step size, any number of steps, any point.  The determinant is the genuine one: mathcomp's
+   Leibniz determinant of the 2(n+1) x 2(n+1) real matrix [jacU Df] whose column j is the image of the j-th basis
+   vector (R made a mathcomp comRingType in proof/P_Rring.v); [detU n f := \det (jacU n f)] satisfies the five
+   hypotheses of C16_volume_preserving_any_dimension, and the entries of the matrix ARE the partial derivatives of
+   the coordinates of the implemented map.  Hence: the matrix of partial derivatives of
+   (q, p) |-> leapfrog(q, p) exists at every point and its determinant is exactly one. *)
+From TT Require Import P_Rring P_leapfrog_ndim P_leapfrog_detU.
+Local Close Scope ring_scope.
+Local Open Scope R_scope.
+Theorem C16_jacobian_determinant_one :
+  forall (n : nat) (grad : list R -> list R) (Minv : mass R),
+    wf_grad (S n) grad -> wf_minv (S n) Minv ->
+    let g := gU n grad in let Mi := MiU n Minv in
+    (forall eps L x, leapfrog NumR eps Minv grad L (embs n x) = embs n (gleap g Mi eps L x)) /\
+    forall Dg, (forall q, filterdiff g (locally q) (Dg q)) ->
+    forall eps L x, exists J : 'M[R]_(n.+1 + n.+1),
+      (forall i j, is_derive (fun t : R => coord2 n (gleap g Mi eps L (plus x (scal t (basis2 n j)))) i) 0 (J i j)) /\
+      determinant J = 1.
+Proof.
+  intros n grad Minv Hg Hm g Mi. split.
+  - exact (proj1 (leapfrog_list_model_ndim n grad Minv Hg Hm)).
+  - exact (leapfrog_jacobian_matrix_determinant_one n grad Minv Hg Hm).
+Qed.
+Print Assumptions C16_jacobian_determinant_one.
+(* what the coordinates and the basis are: coordinate i of a pair is the i-th entry of the model's lists q ++ p, the
+   basis vectors are the unit vectors *)
+Theorem C16_coordinates_are_list_entries : forall n x i,
+  coord2 n x i = nth R0 (emb n (fst x) ++ emb n (snd x)) i.      (* mathcomp's nth: default, list, index *)
+Proof. exact coord2_emb. Qed.
+Theorem C16_basis_is_unit_vectors : forall n i j, coord2 n (basis2 n j) i = if i == j then 1 else 0.
+Proof. exact coord2_basis2. Qed.
+(* detU is a determinant and not a constant: it is the 2x2 determinant in dimension one and c^(2(n+1)) on the
+   homothety of ratio c *)
+Theorem C16_detU_is_determinant_like : forall n : nat,
+  (forall f h : Un n * Un n -> Un n * Un n, is_linear f -> is_linear h ->
+      detU n (fun d => h (f d)) = detU n h * detU n f) /\
+  (forall f h : Un n * Un n -> Un n * Un n, (forall d, f d = h d) -> detU n f = detU n h) /\
+  detU n (fun d => d) = 1 /\
+  (forall A : Un n -> Un n, is_linear A -> detU n (fun d => (fst d, plus (snd d) (A (fst d)))) = 1) /\
+  (forall B : Un n -> Un n, is_linear B -> detU n (fun d => (plus (fst d) (B (snd d)), snd d)) = 1).
+Proof. exact detU_is_determinant_like. Qed.
+Print Assumptions C16_detU_is_determinant_like.
+Theorem C16_detU_homothety : forall n c, detU n (fun d => scal c d) = pow c (n.+1 + n.+1).
+Proof. exact detU_homothety. Qed.
